@@ -10,20 +10,24 @@ SimRec(kk, x) == LET n == RandomElement(1..MaxRows)
                  IN SortSeq(TLCEval([i \in 1..n |-> SimTup(kk, x + i)]), RowLT)
 SimRecs(kk) == {SimRec(kk, j) : j \in 1..2}
 
-\* fl = 0: comparisons (and now and then an atom on a non-key column); fl = 1: also IN and string operators
+\* fl = 0: comparisons (and now and then an atom on a non-key column); fl = 1: also IN and string operators;
+\* fl = 2: comparisons and matchphrase
 SimAtom(kk, fl, x) ==
   LET r == RandomElement(1..40) IN
   IF r = 1 THEN NonKey
   ELSE IF fl = 1 /\ r \in 2..7 THEN [t |-> "in", c |-> RandomElement(1..kk), vs |-> RandomElement((SUBSET Vals) \ {{}})]
   ELSE IF fl = 1 /\ r \in 8..16 /\ {i \in 1..kk : ct[i] = "o"} # {}
        THEN [t |-> "strop", c |-> RandomElement({i \in 1..kk : ct[i] = "o"}), op |-> RandomElement(StrOps), v |-> RandomElement(Vals)]
+  ELSE IF fl = 2 /\ r \in 2..12 /\ {i \in 1..kk : ct[i] = "o"} # {}
+       THEN [t |-> "strop", c |-> RandomElement({i \in 1..kk : ct[i] = "o"}), op |-> "matchphrase", v |-> RandomElement(Vals)]
   ELSE [t |-> "cmp", c |-> RandomElement(1..kk), op |-> RandomElement(CmpOps), v |-> RandomElement(Vals)]
 
 RECURSIVE SimTree(_, _, _, _)
 SimTree(kk, fl, d, x) ==
   IF d = 0 \/ RandomElement(1..4) = 1 THEN SimAtom(kk, fl, x)
   ELSE [t |-> RandomElement({"and", "or"}), l |-> SimTree(kk, fl, d - 1, 2 * x), r |-> SimTree(kk, fl, d - 1, 2 * x + 1)]
-SimConds(kk) == {SimTree(kk, IF RandomElement(1..6) = 1 THEN 1 ELSE 0, CondDepth, j) : j \in 1..3}
+SimFlavour(x) == LET r == RandomElement(1..8) IN IF r = 1 THEN 1 ELSE IF r = 2 THEN 2 ELSE 0
+SimConds(kk) == {SimTree(kk, SimFlavour(j), CondDepth, j) : j \in 1..3}
 
 \* time bounds on one key column (then that column is the integer column "time")
 SimTB(kk, c, x) ==
@@ -37,6 +41,10 @@ SimTBs(kk, c) == {SimTB(kk, c, j) : j \in 1..2}
 \* column types: the time column is an integer column
 SimTypes(kk) == {TLCEval([i \in 1..kk |-> IF RandomElement(1..3) = 1 THEN "ia" ELSE "o"]) : j \in 1..2}
 BothTypes(kk) == {AllO(kk), [i \in 1..kk |-> "ia"]}
+IntTypes(kk) == {[i \in 1..kk |-> "ia"]}
+
+\* every kind of atom (self-tests of the deviations that concern IN and string operators)
+AllAtoms(kk) == CmpAtoms(kk) \cup InAtoms(kk) \cup StrAtoms(kk) \cup {NonKey}
 
 \* exhaustive configurations search with two settings only: MayCoversMatch covers the others
 TwoSettings == {"autoc2m0", "exclc2m0"}
